@@ -27,7 +27,10 @@ ALWAYS_SEARCH = True
 RULE = ('tables of 2-6 columns x 30-300 rows drawn from a Gaussian copula: a random Cholesky factor gives a '
         'positive-definite correlation, the normal scores are pushed through marginal quantile functions from the 8 '
         'families (normal, beta, gamma, uniform, Student t, log-Laplace, truncated normal, a bimodal law for the KDE), '
-        'plus constant columns (about 1 table in 3 has one), integer-rounded columns and, in about 1 table in 4, a '
+        'plus constant columns (about 1 table in 3 has one; 40% of them of INTEGER dtype incl. values beyond 2**53, the '
+        'float ones incl. -0.0, 1e300, a denormal), rows as drawn or ORDERED by a column (sorted / blocks / trend, 1 table '
+        'in 5), instance configurations WITH OPTIONS (GaussianKDE(weights=non-uniform | bw_method | sample_size), '
+        'TruncatedGaussian(minimum, maximum), Univariate(selection_sample_size)), integer-rounded columns and, in about 1 table in 4, a '
         'NON-constant column on an awkward scale (epoch seconds spread over hours, 1000 + 1e-3 y, readings ~1e-9: range '
         'below 1e-5 of the magnitude or below 1e-8 absolute) and, with probability 0.06 per column, a GaussianKDE-modelled '
         'column at an extreme magnitude (farad 2.2e-11 +- 3e-12, ~1e-6, ~3e6, 1e9 offset +- 50..400); labels are shuffled strings '
@@ -45,7 +48,10 @@ RULE = ('tables of 2-6 columns x 30-300 rows drawn from a Gaussian copula: a ran
         '(no non-constant column sampled constant, sample inside the extended training range, two-sample KS for '
         'dependable families), model.correlation vs the normal-score correlation, seed hunts for extreme draws, '
         'scale-stress tables, a Gaussian-copula table with a strongly dependent pair next to a constant column, dict-shape '
-        'tables, and tables of GaussianKDE columns at extreme scales whose sampled cells are compared with an '
+        'tables, constant-zoo tables (exact reproduction, integers compared as Python ints), tables of option-carrying '
+        'instances (sampled KDE cells checked against an INDEPENDENT weighted kernel cdf), a row-ordered two-mode table '
+        'with a selection_sample_size selector (selected family must be near-best on the full column), '
+        'and tables of GaussianKDE columns at extreme scales whose sampled cells are compared with an '
         'independent float64 bisection of the fitted cdf (deterministic; also applied to every KDE-backed column of '
         'every other search sample)')
 PARTIAL = [
@@ -380,6 +386,8 @@ def build_config(spec):
         kw = dict(opts or {})
         if 'weights' in kw:
             kw['weights'] = np.array(kw['weights'], dtype=float)
+        if 'candidates' in kw:
+            kw['candidates'] = [_cls(c) for c in kw['candidates']]
         return _cls(name)(**kw)
     if spec[0] == 'default':
         return None
@@ -1212,6 +1220,11 @@ def search(ctx, deep):
     for t in range((4 if quick else 10) if deep else 2):
         stats['kde_scale_tables'] = stats.get('kde_scale_tables', 0) + 1
         oracle_case(ctx, kde_scale_case(rng4, nr4), stats, schema_ns=[rng4.randint(100, 400)], big=deep, light=True)
+    # selector instances with selection_sample_size on ROW-ORDERED tables (and shuffled controls in deep mode)
+    rng7 = ctx.rng('search', 'selection')
+    nr7 = ctx.nprng('search', 'selection')
+    for t in range((2 if quick else 4) if deep else 1):
+        selection_oracle(ctx, selection_case(rng7, nr7, ordered=(t % 2 == 0)), stats)
     # instances with options (weighted KDE, bw_method, sample_size, TruncatedGaussian bounds)
     rng6 = ctx.rng('search', 'kde-options')
     nr6 = ctx.nprng('search', 'kde-options')
@@ -1330,6 +1343,93 @@ def kde_scale_case(rng, nr):
         spec = [form, 'GaussianKDE']
     return {'labels': labels, 'cols': [c.tolist() for c in cols], 'kinds': kinds, 'descr': descr, 'config': spec,
             'seed': ['int', rng.randrange(2 ** 31)], 'ndarray': False}
+
+
+SEL_N, SEL_K = 5000, 3500
+SEL_CANDS = ['GaussianUnivariate', 'UniformUnivariate', 'TruncatedGaussian', 'BetaUnivariate', 'GaussianKDE']
+
+
+def selection_case(rng, nr, ordered=True):
+    """a two-mode column (75% in a flat mode, 25% in a far Gaussian mode) modelled by the selector instance
+    `Univariate(candidates=[Gaussian, Uniform, TruncatedGaussian, Beta, KDE], selection_sample_size=3500)` in a table of
+    5000 rows that are ORDERED by that column (ascending with the heavy mode low / descending with it high) or left as
+    drawn.  On a random 3500-subsample only the KDE gets close (KS ~0.10 against >= 0.23 for every parametric
+    candidate), so the selection must not depend on the row order."""
+    n = SEL_N
+    heavy = nr.rand(n) < 0.75
+    flat = nr.rand(n) * 2.0 - 5.0
+    far = nr.randn(n) * 0.5 + 4.0
+    x = np.where(heavy, flat, far)
+    how = rng.choice(['sorted-asc', 'sorted-desc']) if ordered else 'as-drawn'
+    if how == 'sorted-desc':
+        x = -x
+    scale = rng.choice([1.0, 10.0, 0.1])
+    x = x * scale + rng.choice([0.0, 100.0]) * scale
+    y = 0.6 * (x - x.mean()) / x.std() + 0.8 * nr.randn(n)
+    if how == 'sorted-asc':
+        perm = np.argsort(x, kind='stable')
+    elif how == 'sorted-desc':
+        perm = np.argsort(-x, kind='stable')
+    else:
+        perm = np.arange(n)
+    x, y = x[perm], y[perm]
+    labels = rng.sample(['amount', 'score', 'b', 'x', 'k9'], 2)
+    first = rng.random() < 0.5
+    cols = [x, y] if first else [y, x]
+    kinds = ['two-mode', 'gaussian'] if first else ['gaussian', 'two-mode']
+    sel_leaf = ['inst', 'Univariate', {'selection_sample_size': SEL_K, 'candidates': list(SEL_CANDS)}]
+    leaves = [sel_leaf, ['class', 'GaussianUnivariate']] if first else [['class', 'GaussianUnivariate'], sel_leaf]
+    spec = ['dict', [[enc_label(lab), lf] for lab, lf in zip(labels, leaves)]]
+    return {'labels': labels, 'cols': [c.tolist() for c in cols], 'kinds': kinds, 'descr': ['', ''], 'config': spec,
+            'seed': ['int', rng.randrange(2 ** 31)], 'ndarray': False, 'dtypes': ['float', 'float'], 'row_order': how}
+
+
+def selection_oracle(ctx, case, stats):
+    """the family selected on the subsample must be (nearly) the best one for the FULL column, whatever the row order:
+        KS_full(selected) <= min over candidates KS_full + 2 * DKW(k, 1e-9)      (subsample noise at k)
+        KS_full(selected) <= DKW(n_train) + 0.1                                   (the marginal-recovery band)
+    Deterministic given the table and the seed; with the candidates of `selection_case` a false alarm needs a
+    parametric family to beat the KDE by > 0.13 in KS on a random 3500-subsample (probability < 1e-9)."""
+    from copulas.utils import get_instance
+    ep = 'GaussianMultivariate.fit'
+    cls = ep + ':selected-family-misses-row-ordered-column'
+    stats['selection_experiments'] = stats.get('selection_experiments', 0) + 1
+    inp = case_input(case, experiment='selection')
+    try:
+        model, X = fit_model(case)
+    except Exception as e:  # noqa
+        ctx.fail_input(ep, inp, 'raised ' + repr(e)[:300], 'fit succeeds', ep + ':raises')
+        return
+    if not columns_in_table_order(ctx, case, model):
+        return
+    for j in range(len(case['labels'])):
+        opts = leaf_opts(case, j)
+        k = opts.get('selection_sample_size')
+        if not k:
+            continue
+        uni = model.univariates[j]
+        tr = np.asarray(case['cols'][j], dtype=float)
+        selected = type(getattr(uni, '_instance', None)).__name__
+        ks_sel = ks_distance(tr, uni.cdf)
+        ks_all = {}
+        for cname in opts.get('candidates') or []:
+            try:
+                inst = get_instance(_cls(cname))
+                inst.fit(tr)
+                ks_all[cname] = ks_distance(tr, inst.cdf)
+            except Exception:  # noqa
+                ks_all[cname] = None
+        finite = [v for v in ks_all.values() if v is not None and v == v]
+        best = min(finite) if finite else ks_sel
+        margin = 2.0 * dkw_eps(min(k, len(tr)), 1e-9)
+        band = dkw_eps(len(tr)) + 0.1
+        stats['max_selection_excess'] = max(stats.get('max_selection_excess', 0.0), ks_sel - best)
+        if not (ks_sel <= best + margin and ks_sel <= band):
+            ctx.fail_input(ep, dict(inp, column=j),
+                           {'selected': selected, 'ks_full_selected': ks_sel, 'ks_full_by_candidate': ks_all,
+                            'best': best, 'margin': margin, 'recovery_band': band, 'row_order': case.get('row_order')},
+                           'KS_full(selected family) <= min_candidates KS_full + 2 DKW(k) and <= DKW(n) + 0.1, for every '
+                           'row order of the training table', cls)
 
 
 def kde_options_case(rng, nr):
@@ -1894,6 +1994,8 @@ def replay(ctx, payload):
              'rank_preservation': 0, 'recovery_experiments': 0, 'max_ks': 0.0, 'max_tau_dev': 0.0}
     if inp.get('experiment') == 'dependence':
         dependence_oracle(ctx, case_from_input(inp), stats)
+    elif inp.get('experiment') == 'selection':
+        selection_oracle(ctx, case_from_input(inp), stats)
     elif 'cols_hex' in inp:
         case = case_from_input(inp)
         n = int(inp.get('n', 1))
